@@ -16,7 +16,7 @@ pub fn meta() -> PropertyMeta {
     PropertyMeta {
         id: "C08",
         level: "exploration",
-        rule: "decimal literals for f32 and f64: (i) random 1..40-digit strings with exponents -420..420, (ii) exact decimal expansions of the midpoint between adjacent floats for boundary (zero, subnormal edge, powers of two, MAX, all-ones mantissa) and random bit patterns, and that expansion nudged one unit up/down in its last place, (iii) shortest and 17-digit renderings of random floats, all in NRf spellings; float keywords in short/long form x case and near misses; boolean words and decimal literals around 0 and 0.5; the full matrix of 20 target types x 7 element kinds. Oracle: Rust std str::parse (correctly rounded) compared bit for bit; exact decimal rounding for booleans; documented accept lists for the matrix. Added: midpoints cut to 6..30 significant digits (just below / above), in plain unsigned notation at moderate magnitudes; short literals (<= 19 digits, small or no exponent); exponent fields at the limits of 32/64-bit arithmetic; EVERY letter string up to 5 (6) characters as a character datum of bool / f32 / f64; libFuzzer target c08_dec (thorough). Non-trivial: a halfway or >= 17-digit literal, a literal in the subnormal or overflow range, a boolean spelled other than 0/1/ON/OFF, or an off-diagonal matrix cell.",
+        rule: "decimal literals for f32 and f64: (i) random 1..40-digit strings with exponents -420..420, (ii) exact decimal expansions of the midpoint between adjacent floats for boundary (zero, subnormal edge, powers of two, MAX, all-ones mantissa) and random bit patterns, and that expansion nudged one unit up/down in its last place, (iii) shortest and 17-digit renderings of random floats, all in NRf spellings; float keywords in short/long form x case and near misses; boolean words and decimal literals around 0 and 0.5; the full matrix of 20 target types x 7 element kinds. Oracle: Rust std str::parse (correctly rounded) compared bit for bit; exact decimal rounding for booleans; documented accept lists for the matrix. Added: midpoints cut to 6..30 significant digits (just below / above), in plain unsigned notation at moderate magnitudes; short literals (<= 19 digits, small or no exponent); exponent fields at the limits of 32/64-bit arithmetic; short literals within less than an f64 can resolve of an f32 midpoint (double-rounding traps, found by scanning every 256th (8th) f32 bit pattern for midpoints whose decimal expansion continues with a run of zeros or nines); exact midpoints with the tie-breaking digit up to 70 000 places out; EVERY letter string up to 5 (6) characters as a character datum of bool / f32 / f64; libFuzzer target c08_dec (thorough). Non-trivial: a halfway or >= 17-digit literal, a literal in the subnormal or overflow range, a boolean spelled other than 0/1/ON/OFF, or an off-diagonal matrix cell.",
         assumptions: &[
             "Rust std float parsing is correctly rounded (trusted reference)",
             "a boolean whose magnitude exceeds isize may answer true or -222",
@@ -596,7 +596,96 @@ fn case_strategy() -> impl Strategy<Value = Case> {
     ]
 }
 
+/// Short literals that lie within a hair of the midpoint of two adjacent f32 values without
+/// being it: the midpoint's exact decimal expansion happens to continue with a run of zeros
+/// (or nines) after `k` digits, so the k-digit literal is closer to the midpoint than an f64
+/// can tell. A reader that goes through a double and narrows it rounds twice and lands on the
+/// wrong neighbour; the correctly rounded result (std) is what counts. Found by scanning f32
+/// bit patterns; the scan is part of the generator, the oracle is the same as everywhere.
+fn double_rounding_traps(bits: u32, s: &mut String, out: &mut dyn FnMut(String) -> bool) -> bool {
+    let a = f32::from_bits(bits);
+    let b = f32::from_bits(bits + 1);
+    if !b.is_finite() || a == 0.0 {
+        return true;
+    }
+    let mid = (a as f64 + b as f64) / 2.0; // exact: 25 significant bits
+    {
+        use std::fmt::Write;
+        s.clear();
+        let _ = write!(s, "{mid:.30e}");
+    }
+    // d.dddddddddddddddddddddddddddddde-xx : 31 digits around one '.'
+    let sb = s.as_bytes();
+    let mut digits = [0u8; 31];
+    digits[0] = sb[0];
+    digits[1..].copy_from_slice(&sb[2..32]);
+    let exp: i32 = s[33..].parse().unwrap();
+    for k in 6..=16usize {
+        let z = 18usize.saturating_sub(k).max(4);
+        let tail = &digits[k..k + z];
+        let zeros = tail.iter().all(|c| *c == b'0');
+        let nines = tail.iter().all(|c| *c == b'9');
+        if !(zeros || nines) || (zeros && digits[k..].iter().all(|c| *c == b'0')) {
+            continue;
+        }
+        let mut head = digits[..k].to_vec();
+        let mut e10 = exp - (k as i32 - 1);
+        if nines {
+            // round the k-digit head up
+            let mut i = k;
+            loop {
+                if i == 0 {
+                    head.insert(0, b'1');
+                    head.pop();
+                    e10 += 1;
+                    break;
+                }
+                i -= 1;
+                if head[i] == b'9' {
+                    head[i] = b'0';
+                } else {
+                    head[i] += 1;
+                    break;
+                }
+            }
+        }
+        let m = String::from_utf8(head).unwrap();
+        // three spellings: integer mantissa with exponent, d.ddd with exponent, and without the trailing zeros
+        let trimmed = m.trim_end_matches('0');
+        let e_trim = e10 + (m.len() - trimmed.len()) as i32;
+        for lit in [format!("{m}e{e10}"), format!("{}.{}E{}", &m[..1], &m[1..], e10 + k as i32 - 1), format!("{}e{e_trim}", if trimmed.is_empty() { "0" } else { trimmed })] {
+            if !out(lit) {
+                return false;
+            }
+        }
+    }
+    true
+}
+
 fn run(e: &Engine) {
+    // scan: every exponent field x a stride of mantissas (quick: every 64th from a seed-dependent offset; thorough: every 4th)
+    if !cfg!(debug_assertions) {
+        let stride: u32 = e.tier.pick(256, 8);
+        let offset = (e.seed as u32).wrapping_mul(2654435761) % stride;
+        e.enumerate::<Case, _, _>(
+            "f32-double-rounding-traps",
+            254 * 8,
+            move |part, f| {
+                let expo = 1 + (part / 8) as u32;
+                let slice = (part % 8) as u32;
+                let mut m = slice * (1 << 20) + offset;
+                let mut buf = String::with_capacity(48);
+                while m < (slice + 1) * (1 << 20) {
+                    let bits = (expo << 23) | m;
+                    if !double_rounding_traps(bits, &mut buf, &mut |lit| f(Case::Float { single: true, lit: lit.clone(), halfway: true }) && f(Case::Float { single: false, lit: format!("-{lit}"), halfway: false })) {
+                        return;
+                    }
+                    m += stride;
+                }
+            },
+            check,
+        );
+    }
     e.proptest("literals-keywords-matrix", e.tier.pick(4_000_000, 60_000_000), case_strategy, check);
     if !e.replay_only && !e.failed() {
         let floats = e.label_count("f32 literal") + e.label_count("f64 literal");
